@@ -30,9 +30,17 @@ void stub_keyhandle(u8 *self, u8 *key) { (void)self; (void)key; }   /* round key
 
 #define BLKS_IN ((DLEN + 15) / 16)
 #define OUTMAX (DLEN + 32)
+#ifdef SECOND_LEN
+_Static_assert(SECOND_LEN <= DLEN, "the second pipeline reuses the first input buffer");
+#endif
 struct in_t { u8 data[DLEN + 1]; u8 sched[K]; } IN;
-static u8 *MODES[THREADS];
-static u16 seqno[THREADS];
+#if defined(SECOND_T) && SECOND_T > THREADS
+#define MAXT SECOND_T
+#else
+#define MAXT THREADS
+#endif
+static u8 *MODES[MAXT];
+static u16 seqno[MAXT];
 static u32 mon_on, in_mon;
 u32 rs_violations;
 
@@ -40,7 +48,7 @@ u32 rs_violations;
 void rs_access(u8 *p, u64 n, int w)
 {
   if (!mon_on || in_mon || n == 0) return;
-  { int live = 0; for (int t = 1; t < NT; t++) if (rs_started[t] && !rs_done[t]) live = 1; if (!live && rs_nthreads == NT) return; }   /* workers gone: no concurrency left */
+  { int live = 0; for (int t = 1; t < RS_MAX_THREADS; t++) if (rs_started[t] && !rs_done[t]) live = 1; if (!live && rs_nthreads > 1) return; }   /* workers gone: no concurrency left */
   in_mon = 1;
   u8 *base = vf_bg_buflst();
   if (base != 0) {
@@ -65,7 +73,7 @@ void mark_runcry(u8 *self, u8 *block)
 {
   rs_access(block, 16, 1);
   int s = -1;
-  for (int j = 0; j < THREADS; j++) if (MODES[j] == self) s = j;
+  for (int j = 0; j < MAXT; j++) if (MODES[j] == self) s = j;
   CHECK(s >= 0, "block transformed by one of the T stream objects");
   if (s < 0) return;
   CHECK(rs_cur >= 1 && rs_wid[rs_cur] == (u8)s, "stream j is driven by worker j only");
@@ -88,10 +96,72 @@ static void t_step(int t)
 static int all_done(void)
 {
   if (!rs_done[0]) return 0;
-  for (int t = 1; t < NT; t++) if (rs_started[t] && !rs_done[t]) return 0;
+  for (int t = 1; t < RS_MAX_THREADS; t++) if (rs_started[t] && !rs_done[t]) return 0;
   return 1;
 }
 
+/* one complete pipeline run with `threads` workers over data[0..dlen); all checks inside */
+static u32 CUR_T;
+static void one_run(u32 threads, const u8 *data, u32 dlen)
+{
+  u8 key[16] = {0}, iv[20] = {0};
+  u32 bsz = vf_buf_sz();
+  static u8 exp[OUTMAX];
+  u32 explen;
+  CUR_T = threads;
+#if ENC
+  u32 nblk = dlen / 16 + 1;
+  for (u32 i = 0; i < 16 * nblk; i++) exp[i] = i < dlen ? data[i] : (u8)(16 - dlen % 16);
+  explen = 16 * nblk;
+#else
+  u32 nblk = dlen / 16;
+  ASSUME(dlen % 16 == 0 && dlen >= 16);
+  ASSUME(data[dlen - 1] >= 1 && data[dlen - 1] <= 16);    /* ciphertext body produced by encryption: last plaintext byte is the pad length */
+  for (u32 i = 0; i < dlen; i++) exp[i] = data[i];
+  explen = dlen - data[dlen - 1];
+#endif
+  for (u32 b = 0; b < nblk; b++) {
+    u32 chunk = b / bsz, s = chunk % threads, sq = (chunk / threads) * bsz + b % bsz;
+    exp[16 * b] = (u8)(exp[16 * b] + 1); exp[16 * b + 3] = (u8)s; exp[16 * b + 4] = (u8)sq; exp[16 * b + 5] = (u8)(sq >> 8);
+  }
+  u8 *fin = envf_open_in(data, dlen);
+  u8 *fout = envf_open_out(OUTMAX);
+  u8 **modes = (u8 **)env_alloc(sizeof(u8 *) * MAXT);
+  for (u32 j = 0; j < threads; j++) { MODES[j] = vf_mode_make(key, iv, ENC, 0); modes[j] = MODES[j]; seqno[j] = 0; }
+  for (int t = 0; t < RS_MAX_THREADS; t++) { rs_started[t] = t == 0; rs_done[t] = 0; rs_held[t] = 0; }
+  rs_nthreads = 1;
+  mon_on = 1;
+  vf_pipe_run_init(0, fin, fout, ENC, (u8)threads, (u8 *)modes);
+  int c = 0;
+  for (int s = 0; s < K; s++) {
+    if (all_done()) break;
+#if defined(SCHED_CANON)
+    int found = 0;
+    for (u32 j = 0; j < threads + 1 && !found; j++) { int t = (int)((c + j) % (threads + 1)); if (t_enabled(t)) { c = t; found = 1; } }
+    CHECK(found, "deadlock: an unfinished thread exists and no thread can run (lost wake-up / missing hand-over)");
+    if (!found) break;
+    t_step(c);
+#else
+    int any = 0;
+    for (u32 t = 0; t < threads + 1; t++) any |= t_enabled((int)t);
+    CHECK(any, "deadlock: an unfinished thread exists and no thread can run (lost wake-up / missing hand-over)");
+    if (!any) break;
+    u8 t = IN.sched[s];
+    ASSUME(t < threads + 1 && t_enabled(t));
+    t_step(t);
+#endif
+  }
+  mon_on = 0;
+  CHECK(all_done(), "unwinding assertion: schedule bound K too small for this configuration");
+  if (all_done()) {
+    CHECK((u32)rs_nthreads == threads + 1, "exactly T worker threads were created");
+    CHECK(envf_len(fout) == explen, "output length (every block exported once; pad added / stripped)");
+    for (u32 i = 0; i < explen && i < envf_len(fout); i++)
+      CHECK(envf_byte(fout, i) == exp[i], "output byte: block transformed exactly once, by the stream that owns its chunk, in stream order, at its own offset");
+    CHECK(vf_bg_instance_null() && vf_bg_live() == 0, "process-global pipeline state back to initial (instance deleted, live counter 0)");
+    CHECK(envf_nwrites(fin) == 0, "input not written");
+  }
+}
 void harness(void)
 {
   LOAD_INPUTS();
@@ -99,65 +169,11 @@ void harness(void)
   for (u32 i = 0; i < DLEN; i++) IN.data[i] = (u8)(i * 7 + 1);
   if (DLEN >= 16) IN.data[DLEN - 1] = 5;
 #endif
-  u8 key[16] = {0}, iv[20] = {0};
-  u32 bsz = vf_buf_sz();                       /* blocks per chunk */
-  /* expected output: padded (ENC) input, each block marked once by the stream that owns its chunk, at its own offset */
-  static u8 exp[OUTMAX];
-  u32 explen;
-  u32 nin = DLEN;
-#if ENC
-  u32 nblk = DLEN / 16 + 1;
-  for (u32 i = 0; i < 16 * nblk; i++) exp[i] = i < DLEN ? IN.data[i] : (u8)(16 - DLEN % 16);
-  explen = 16 * nblk;
-#else
-  u32 nblk = DLEN / 16;
-  ASSUME(DLEN % 16 == 0 && DLEN >= 16);
-  ASSUME(IN.data[DLEN - 1] >= 1 && IN.data[DLEN - 1] <= 16);    /* ciphertext body produced by encryption: last plaintext byte is the pad length */
-  for (u32 i = 0; i < DLEN; i++) exp[i] = IN.data[i];
-  explen = DLEN - IN.data[DLEN - 1];
+  one_run(THREADS, IN.data, DLEN);
+#ifdef SECOND_T
+  /* C15: a second pipeline in the same process image, with a different worker count, behaves as in a fresh process */
+  one_run(SECOND_T, IN.data, SECOND_LEN);
 #endif
-  for (u32 b = 0; b < nblk; b++) {
-    u32 chunk = b / bsz, s = chunk % THREADS, sq = (chunk / THREADS) * bsz + b % bsz;
-    exp[16 * b] = (u8)(exp[16 * b] + 1); exp[16 * b + 3] = (u8)s; exp[16 * b + 4] = (u8)sq; exp[16 * b + 5] = (u8)(sq >> 8);
-  }
-  u8 *fin = envf_open_in(IN.data, nin);
-  u8 *fout = envf_open_out(OUTMAX);
-  u8 **modes = (u8 **)env_alloc(sizeof(u8 *) * THREADS);
-  for (int j = 0; j < THREADS; j++) { MODES[j] = vf_mode_make(key, iv, ENC, 0); modes[j] = MODES[j]; }
-  mon_on = 1;
-  vf_pipe_run_init(0, fin, fout, ENC, THREADS, (u8 *)modes);
-#if defined(SCHED_CANON)
-  int c = 0;
-  for (int s = 0; s < K; s++) {
-    if (all_done()) break;
-    int found = 0;
-    for (int j = 0; j < NT && !found; j++) { int t = (c + j) % NT; if (t_enabled(t)) { c = t; found = 1; } }
-    CHECK(found, "deadlock: an unfinished thread exists and no thread can run (lost wake-up / missing hand-over)");
-    if (!found) break;
-    t_step(c);
-  }
-#else
-  for (int s = 0; s < K; s++) {
-    if (all_done()) break;
-    int any = 0;
-    for (int t = 0; t < NT; t++) any |= t_enabled(t);
-    CHECK(any, "deadlock: an unfinished thread exists and no thread can run (lost wake-up / missing hand-over)");
-    if (!any) break;
-    u8 t = IN.sched[s];
-    ASSUME(t < NT && t_enabled(t));
-    t_step(t);
-  }
-#endif
-  mon_on = 0;
-  CHECK(all_done(), "unwinding assertion: schedule bound K too small for this configuration");
-  if (all_done()) {
-    CHECK(rs_nthreads == NT, "exactly T worker threads were created");
-    CHECK(envf_len(fout) == explen, "output length (every block exported once; pad added / stripped)");
-    for (u32 i = 0; i < explen && i < envf_len(fout); i++)
-      CHECK(envf_byte(fout, i) == exp[i], "output byte: block transformed exactly once, by the stream that owns its chunk, in stream order, at its own offset");
-    CHECK(vf_bg_instance_null() && vf_bg_live() == 0, "process-global pipeline state back to initial (instance deleted, live counter 0)");
-    CHECK(envf_nwrites(fin) == 0, "input not written");
-  }
   WITNESS_POINT();
 }
 HARNESS_MAIN
